@@ -101,7 +101,8 @@ def check(ctx, report):
         if kb is None or kb.abstract:
             report.add('C16.R3', c.construct + '@key_bytes', 'no concrete key_bytes')
             continue
-        rets = [ast.unparse(n.value) for n in ast.walk(kb.node) if isinstance(n, ast.Return) and n.value is not None]
+        from ..astutil import returned
+        rets = [ast.unparse(v) for v in returned(kb.node)]
         x509 = c.name.startswith('SshX509')
         ok = rets == ['self.compose()'] or (x509 and len(rets) == 1 and (rets[0].endswith('.der') or rets[0].endswith('.key_bytes')))
         if not ok:
